@@ -81,6 +81,8 @@ def run(ctx):
     ctx.not_decided += ["floating point; the listed consequences (lattice-shift invariance, linearity in occupancy, isotropic/"
                         "anisotropic equivalence, F(000)) follow on paper from the term identities, C15 (multiplicity) and C04"]
     ctx.assumptions += ["C16 (FormFactor), C01 (sintl, cell_invert), C15 (symmulti)", "numpy exp/cos/sin/dot"]
+    from xfabsa import numeric as _N2
+    _N2.hazard_rule(ctx, 'C08')
     return ("StructureFactor evaluated by E3 on a symbolic three-atom structure (isotropic, anisotropic, no ADP) with and "
             "without dispersion equals the explicit sum term by term; the wiring of sintl, cell_invert and FormFactor "
             "arguments and the beta tensor formula are decided separately.")
